@@ -47,13 +47,13 @@ theorem opsx_Keeper_SwapExactAmountOut_pinned : Gen.CLKeeperOps.opsx_Keeper_Swap
 /-- B — `Keeper.swapOutAmtGivenIn`: `CL.execSwap` (out-given-in): non-positive amount out is an error, then `updatePoolForSwap` -/
 theorem opsx_Keeper_swapOutAmtGivenIn_pinned : Gen.CLKeeperOps.opsx_Keeper_swapOutAmtGivenIn =
     ["GetId(v3)", "computeOutAmtGivenIn(v0,v1,v3.GetId(),v4,v5,v6,v7,true)", "sdk.NewCoin(v4.Denom,v12.AmountIn)",
-     "=(v4,_)", "sdk.NewCoin(v5,v12.AmountOut)", "IsPositive(v13.Amount)", "!", "if", "end",
+     "=(v4,_)", "sdk.NewCoin(v5,v12.AmountOut)", "IsPositive(v13.Amount)", "!(v13.Amount.IsPositive())", "if", "end",
      "updatePoolForSwap(v0,v1,v3,{v2,v4,v13},v10,v12.SpreadRewards)", "return(v4,v13,v10,nil)"] := by decide
 
 /-- B — `Keeper.swapInAmtGivenOut`: `CL.execSwap` (in-given-out): non-positive amount in is an error, then `updatePoolForSwap` -/
 theorem opsx_Keeper_swapInAmtGivenOut_pinned : Gen.CLKeeperOps.opsx_Keeper_swapInAmtGivenOut =
     ["GetId(v3)", "computeInAmtGivenOut(v0,v1,v4,v5,v6,v7,v3.GetId(),true)", "sdk.NewCoin(v5,v12.AmountIn)",
-     "sdk.NewCoin(v4.Denom,v12.AmountOut)", "IsPositive(v13.Amount)", "!", "if", "end",
+     "sdk.NewCoin(v4.Denom,v12.AmountOut)", "IsPositive(v13.Amount)", "!(v13.Amount.IsPositive())", "if", "end",
      "updatePoolForSwap(v0,v1,v3,{v2,v13,v14},v10,v12.SpreadRewards)", "return(v13,v14,v10,nil)"] := by decide
 
 /-- B — `Keeper.swapSetup`: the `positions.isEmpty` guard of `CLPool.swap` -/
@@ -64,22 +64,23 @@ theorem opsx_Keeper_swapSetup_pinned : Gen.CLKeeperOps.opsx_Keeper_swapSetup =
 
 /-- B — `iteratorToNextInitializedTickSqrtPriceTarget`: the head of `CL.ticksAhead`, `tickToSqrtPrice` and the target clamp at the start of `CL.loopBody` -/
 theorem opsx_iteratorToNextInitializedTickSqrtPriceTarget_pinned : Gen.CLKeeperOps.opsx_iteratorToNextInitializedTickSqrtPriceTarget =
-    ["Valid(v0)", "!", "if", "return(0,{},{},error)", "end", "Key(v0)", "types.TickIndexFromBytes(v0.Key())",
-     "math.TickToSqrtPrice(v3)", "GetSqrtTargetPrice(v2,v5)", "return(v3,v5,v6,nil)"] := by decide
+    ["Valid(v0)", "!(v0.Valid())", "if", "return(0,{},{},error)", "end", "Key(v0)",
+     "types.TickIndexFromBytes(v0.Key())", "math.TickToSqrtPrice(v3)", "GetSqrtTargetPrice(v2,v5)",
+     "return(v3,v5,v6,nil)"] := by decide
 
 /-- B — `Keeper.computeOutAmtGivenIn`: `CL.computeSwapS` / `CL.swapLoopS` / `CL.loopBody` (out-given-in): loop guard, step, progress check, accumulator update, `remaining -= in + charge`, `calculated += out`, tick-crossing test, edge-case error, tick recomputation, no-progress counter, final `Ceil().TruncateInt()` of the amount in and `TruncateInt()` of the amount out -/
 theorem opsx_Keeper_computeOutAmtGivenIn_pinned : Gen.CLKeeperOps.opsx_Keeper_computeOutAmtGivenIn =
     ["swapSetup(v0,v1,v2,v3.Denom,v4,v7)", "setupSwapStrategy(v0,v11,v5,v3.Denom,v6)", "if(v7)",
      "getSpreadFactorScalingFactorForPool(v0,v1,v2)", "=(v16;v10,_)", "end", "newSwapState(v3.Amount,v11,v14)",
      "InitializeNextTickIterator(v14,v1,v2,v17.tick)", "defer", "Close(v18)", "=(v19,0)", "for",
-     "GT(v17.amountSpecifiedRemaining,smallestDec)", "Equal(v17.sqrtPrice,v15)", "!", "&&(_,_)",
+     "GT(v17.amountSpecifiedRemaining,smallestDec)", "Equal(v17.sqrtPrice,v15)", "!(_)", "&&(_,_)",
      "=(v20,v17.sqrtPrice)", "iteratorToNextInitializedTickSqrtPriceTarget(v18,v2,v14)",
      "ComputeSwapWithinBucketOutGivenIn(v14,v17.sqrtPrice,v23,v17.liquidity,v17.amountSpecifiedRemaining)",
      "validateSwapProgressAndAmountConsumption(v24,v20,v25,v26)", "if(v7)",
      "updateSpreadRewardGrowthGlobal(v17,v27,v16)", "end", "=(v17.sqrtPrice,v24)", "Add(v25,v27)",
      "SubMut(v17.amountSpecifiedRemaining,_)", "AddMut(v17.amountCalculated,v26)", "Equal(v22,v24)", "if",
      "swapCrossTickLogic(v0,v1,v17,v14,v21,v18,v11,v12,&v13,v3.Denom,v7)", "=(v17;v10,_)", "else", "ZeroForOne(v14)",
-     "edgeCaseInequalityBasedOnSwapStrategy(v14.ZeroForOne(),v22,v24)", "if", "else", "Equal(v20,v24)", "!", "if",
+     "edgeCaseInequalityBasedOnSwapStrategy(v14.ZeroForOne(),v22,v24)", "if", "else", "Equal(v20,v24)", "!(_)", "if",
      "math.CalculateSqrtPriceToTick(v24)", "=(v17.tick,v29)", "end", "IsZero(v25)", "if",
      ">=(v19,swapNoProgressLimit)", "if", "end", "++(v19)", "end", "end", "IsNegative(v17.amountSpecifiedRemaining)",
      "if", "end", "if(v7)", "=(v30,{Denom:v3.Denom,Amount:v17.globalSpreadRewardGrowthPerUnitLiquidity})",
@@ -94,14 +95,14 @@ theorem opsx_Keeper_computeInAmtGivenOut_pinned : Gen.CLKeeperOps.opsx_Keeper_co
     ["swapSetup(v0,v1,v6,v3,v2.Denom,v7)", "setupSwapStrategy(v0,v11,v4,v3,v5)", "if(v7)",
      "getSpreadFactorScalingFactorForPool(v0,v1,v6)", "=(v16;v10,_)", "end", "newSwapState(v2.Amount,v11,v14)",
      "InitializeNextTickIterator(v14,v1,v6,v17.tick)", "defer", "Close(v18)", "=(v19,0)", "for",
-     "GT(v17.amountSpecifiedRemaining,smallestDec)", "Equal(v17.sqrtPrice,v15)", "!", "&&(_,_)",
+     "GT(v17.amountSpecifiedRemaining,smallestDec)", "Equal(v17.sqrtPrice,v15)", "!(_)", "&&(_,_)",
      "=(v20,v17.sqrtPrice)", "iteratorToNextInitializedTickSqrtPriceTarget(v18,v6,v14)",
      "ComputeSwapWithinBucketInGivenOut(v14,v17.sqrtPrice,v23,v17.liquidity,v17.amountSpecifiedRemaining)",
      "validateSwapProgressAndAmountConsumption(v24,v20,v26,v25)", "if(v7)",
      "updateSpreadRewardGrowthGlobal(v17,v27,v16)", "end", "=(v17.sqrtPrice,v24)",
      "SubMut(v17.amountSpecifiedRemaining,v25)", "Add(v26,v27)", "AddMut(v17.amountCalculated,_)", "Equal(v22,v24)",
      "if", "swapCrossTickLogic(v0,v1,v17,v14,v21,v18,v11,v12,&v13,v3,v7)", "=(v17;v10,_)", "else", "ZeroForOne(v14)",
-     "edgeCaseInequalityBasedOnSwapStrategy(v14.ZeroForOne(),v22,v24)", "if", "else", "Equal(v20,v24)", "!", "if",
+     "edgeCaseInequalityBasedOnSwapStrategy(v14.ZeroForOne(),v22,v24)", "if", "else", "Equal(v20,v24)", "!(_)", "if",
      "math.CalculateSqrtPriceToTick(v24)", "=(v17.tick;v10,_)", "end", "IsZero(v25)", "if",
      ">=(v19,swapNoProgressLimit)", "if", "end", "++(v19)", "end", "end", "IsNegative(v17.amountSpecifiedRemaining)",
      "if", "end", "if(v7)", "sdk.NewDecCoinFromDec(v3,v17.globalSpreadRewardGrowthPerUnitLiquidity)",
@@ -128,7 +129,7 @@ theorem opsx_Keeper_updatePoolForSwap_pinned : Gen.CLKeeperOps.opsx_Keeper_updat
      "getPoolById(v0,v1,v6)", "Ceil(v5)", "TruncateInt(v5.Ceil())",
      "sdk.NewCoin(v3.TokenIn.Denom,v5.Ceil().TruncateInt())", "Sub(v3.TokenIn.Amount,v8.Amount)",
      "=(v3.TokenIn.Amount,_)", "GetAddress(v2)",
-     "SendCoins(v0.bankKeeper,v1,v3.Sender,v2.GetAddress(),{v3.TokenIn})", "IsZero(v8)", "!", "if",
+     "SendCoins(v0.bankKeeper,v1,v3.Sender,v2.GetAddress(),{v3.TokenIn})", "IsZero(v8)", "!(v8.IsZero())", "if",
      "GetSpreadRewardsAddress(v2)", "SendCoins(v0.bankKeeper,v1,v3.Sender,v2.GetSpreadRewardsAddress(),{v8})", "end",
      "GetAddress(v2)", "SendCoins(v0.bankKeeper,v1,v2.GetAddress(),v3.Sender,{v3.TokenOut})",
      "ApplySwap(v2,v4.NewLiquidity,v4.NewCurrentTick,v4.NewSqrtPrice)", "setPool(v0,v1,v2)",
@@ -152,7 +153,7 @@ theorem opsx_Keeper_setupSwapStrategy_pinned : Gen.CLKeeperOps.opsx_Keeper_setup
 
 /-- B — `Keeper.getPoolForSwap`: the `positions.isEmpty` guard of `CLPool.swap` -/
 theorem opsx_Keeper_getPoolForSwap_pinned : Gen.CLKeeperOps.opsx_Keeper_getPoolForSwap =
-    ["getPoolById(v0,v1,v2)", "if", "return(v3,v4)", "end", "PoolHasPosition(v0,v1,v3)", "!", "if",
+    ["getPoolById(v0,v1,v2)", "if", "return(v3,v4)", "end", "PoolHasPosition(v0,v1,v3)", "!(v5)", "if",
      "return(v3,error)", "end", "return(v3,nil)"] := by decide
 
 /-- B — `Keeper.getInitialUptimeGrowthOppositeDirectionOfLastTraversalForTick`: `CLInc.initialTr` (`cur ≥ t` ⇒ the accumulator values, else empty) -/
@@ -175,17 +176,17 @@ theorem opsx_Keeper_updateGivenPoolUptimeAccumulatorsToNow_pinned : Gen.CLKeeper
      "Sub(v1.BlockTime(),v2.GetLastLiquidityUpdate())", "osmomath.NewDec(_)", "QuoMut(v4,dec1e9)", "IsZero(v5)",
      "if", "end", "IsNegative(v5)", "if", "return(error)", "end", "GetId(v2)", "=(v6,v2.GetId())",
      "GetAllIncentiveRecordsForPool(v0,v1,v6)", "getIncentiveScalingFactorForPool(v0,v1,v6)", "GetLiquidity(v2)",
-     "=(v10,v2.GetLiquidity())", "LT(v10,oneDec)", "!", "if", "range(v3)", "=(v12,types.SupportedUptimes[v11])",
+     "=(v10,v2.GetLiquidity())", "LT(v10,oneDec)", "!(_)", "if", "range(v3)", "=(v12,types.SupportedUptimes[v11])",
      "calcAccruedIncentivesForAccum(v1,v12,v10,v5,v7,v6,v9)", "AddToAccumulator(v3[v11],v13)", "=(v7,v14)", "end",
      "end", "setMultipleIncentiveRecords(v0,v1,v7)", "BlockTime(v1)", "SetLastLiquidityUpdate(v2,v1.BlockTime())",
      "setPool(v0,v1,v2)"] := by decide
 
 /-- B — `calcAccruedIncentivesForAccum`: `CLInc.emitLoop` / `CLInc.emitOne` (the body of the record loop is ALSO tied by value: `TieGenCL.emitStep_model_eq_gen`) -/
 theorem opsx_calcAccruedIncentivesForAccum_pinned : Gen.CLKeeperOps.opsx_calcAccruedIncentivesForAccum =
-    ["IsPositive(v2)", "!", "IsPositive(v3)", "!", "||(_,_)", "if", "end", "len(v4)", "make(_,_)", "copy(v7,v4)",
-     "sdk.NewDecCoins()", "=(v8,sdk.NewDecCoins())", "range(v7)", "=(v11,v10.IncentiveRecordBody)",
-     "UTC(v11.StartTime)", "BlockTime(v0)", "UTC(v0.BlockTime())",
-     "Before(v11.StartTime.UTC(),v0.BlockTime().UTC())", "!", "!=(v10.MinUptime,v1)", "||(_,_)", "if", "continue",
+    ["IsPositive(v2)", "!(v2.IsPositive())", "IsPositive(v3)", "!(v3.IsPositive())", "||(_,_)", "if", "end",
+     "len(v4)", "make(_,_)", "copy(v7,v4)", "sdk.NewDecCoins()", "=(v8,sdk.NewDecCoins())", "range(v7)",
+     "=(v11,v10.IncentiveRecordBody)", "UTC(v11.StartTime)", "BlockTime(v0)", "UTC(v0.BlockTime())",
+     "Before(v11.StartTime.UTC(),v0.BlockTime().UTC())", "!(_)", "!=(v10.MinUptime,v1)", "||(_,_)", "if", "continue",
      "end", "computeTotalIncentivesToEmit(v3,v11.EmissionRate)", "if", "continue", "end",
      "scaleUpTotalEmittedAmount(v12,v6)", "if", "continue", "end", "QuoTruncate(v14,v2)",
      "sdk.NewDecCoinFromDec(v11.RemainingCoin.Denom,v15)", "=(v17,v4[v9].IncentiveRecordBody.RemainingCoin.Amount)",
@@ -224,8 +225,9 @@ theorem opsx_Keeper_GetUptimeGrowthOutsideRange_pinned : Gen.CLKeeperOps.opsx_Ke
 theorem opsx_Keeper_initOrUpdatePositionUptimeAccumulators_pinned : Gen.CLKeeperOps.opsx_Keeper_initOrUpdatePositionUptimeAccumulators =
     ["UpdatePoolUptimeAccumulatorsToNow(v0,v1,v2)", "GetUptimeAccumulators(v0,v1,v2)",
      "GetUptimeGrowthInsideRange(v0,v1,v2,v4,v5)", "GetUptimeGrowthOutsideRange(v0,v1,v2,v4,v5)",
-     "types.KeyPositionId(v7)", "range(v9)", "HasPosition(v14,v12)", "!", "if", "IsPositive(v6)", "!", "if",
-     "return(error)", "end", "NewPositionIntervalAccumulation(v14,v12,v3,v10[v13],emptyOptions)", "else",
+     "types.KeyPositionId(v7)", "range(v9)", "HasPosition(v14,v12)", "!(v15)", "if", "IsPositive(v6)",
+     "!(v6.IsPositive())", "if", "return(error)", "end",
+     "NewPositionIntervalAccumulation(v14,v12,v3,v10[v13],emptyOptions)", "else",
      "updatePositionToInitValuePlusGrowthOutside(v14,v12,v11[v13])",
      "UpdatePositionIntervalAccumulation(v14,v12,v6,v10[v13])", "end", "end"] := by decide
 
@@ -262,18 +264,18 @@ theorem opsx_Keeper_collectIncentives_pinned : Gen.CLKeeperOps.opsx_Keeper_colle
     ["GetPosition(v0,v1,v3)", "String(v2)", "!=(v2.String(),v4.Address)", "if", "end",
      "prepareClaimAllIncentivesForPosition(v0,v1,v4.PositionId)", "IsZero(v6)", "IsZero(v7)",
      "&&(v6.IsZero(),v7.IsZero())", "if", "return(v6,v7,v8,nil)", "end", "getPoolById(v0,v1,v4.PoolId)",
-     "IsZero(v6)", "!", "if", "GetIncentivesAddress(v9)",
+     "IsZero(v6)", "!(v6.IsZero())", "if", "GetIncentivesAddress(v9)",
      "SendCoins(v0.bankKeeper,v1,v9.GetIncentivesAddress(),v2,v6)", "end", "return(v6,v7,v8,nil)"] := by decide
 
 /-- B — `Keeper.CreateIncentive`: `CLInc.createIncentive` (guards, `sync` BEFORE the record is inserted, bank send) -/
 theorem opsx_Keeper_CreateIncentive_pinned : Gen.CLKeeperOps.opsx_Keeper_CreateIncentive =
-    ["getPoolById(v0,v1,v2)", "IsValid(v4)", "!", "IsZero(v4)", "||(_,v4.IsZero())", "if", "end", "BlockTime(v1)",
-     "Before(v6,v1.BlockTime())", "if", "end", "IsPositive(v5)", "!", "if", "end", "GetParams(v0,v1)",
-     "=(v10,_.AuthorizedUptimes)", "osmoutils.SortSlice(v10)", "=(v11,false)", "range(v10)", "==(v7,v12)", "if",
-     "=(v11,true)", "break", "end", "end", "!", "if", "end", "HasBalance(v0.bankKeeper,v1,v3,v4)", "!", "if", "end",
-     "UpdatePoolUptimeAccumulatorsToNow(v0,v1,v2)", "GetNextIncentiveRecordId(v0,v1)", "+(v14,1)",
-     "SetNextIncentiveRecordId(v0,v1,_)", "sdk.NewDecCoinFromCoin(v4)",
-     "=(v15,{RemainingCoin:_,EmissionRate:v5,StartTime:v6})",
+    ["getPoolById(v0,v1,v2)", "IsValid(v4)", "!(v4.IsValid())", "IsZero(v4)", "||(_,v4.IsZero())", "if", "end",
+     "BlockTime(v1)", "Before(v6,v1.BlockTime())", "if", "end", "IsPositive(v5)", "!(v5.IsPositive())", "if", "end",
+     "GetParams(v0,v1)", "=(v10,_.AuthorizedUptimes)", "osmoutils.SortSlice(v10)", "=(v11,false)", "range(v10)",
+     "==(v7,v12)", "if", "=(v11,true)", "break", "end", "end", "!(v11)", "if", "end",
+     "HasBalance(v0.bankKeeper,v1,v3,v4)", "!(v13)", "if", "end", "UpdatePoolUptimeAccumulatorsToNow(v0,v1,v2)",
+     "GetNextIncentiveRecordId(v0,v1)", "+(v14,1)", "SetNextIncentiveRecordId(v0,v1,_)",
+     "sdk.NewDecCoinFromCoin(v4)", "=(v15,{RemainingCoin:_,EmissionRate:v5,StartTime:v6})",
      "=(v16,{PoolId:v2,IncentiveRecordBody:v15,MinUptime:v7,IncentiveId:v14})",
      "getAllIncentiveRecordsForUptime(v0,v1,v2,v7)", "GasMeter(v1)", "len(v17)",
      "*(types.BaseGasFeeForNewIncentive,_)", "ConsumeGas(v1.GasMeter(),_,\"cl incentive creation fee\")",
@@ -289,10 +291,11 @@ theorem opsx_Keeper_getIncentiveScalingFactorForPool_pinned : Gen.CLKeeperOps.op
 /-- B — `Keeper.initOrUpdatePositionSpreadRewardAccumulator`: `CLFees.Acc.updPos` -/
 theorem opsx_Keeper_initOrUpdatePositionSpreadRewardAccumulator_pinned : Gen.CLKeeperOps.opsx_Keeper_initOrUpdatePositionSpreadRewardAccumulator =
     ["GetSpreadRewardAccumulator(v0,v1,v2)", "types.KeySpreadRewardPositionAccumulator(v5)", "HasPosition(v7,v9)",
-     "getSpreadRewardGrowthOutside(v0,v1,v2,v3,v4)", "GetValue(v7)", "SafeSub(v7.GetValue(),v11)", "!", "if",
-     "IsPositive(v6)", "!", "if", "return(error)", "end", "NewPositionIntervalAccumulation(v7,v9,v6,v12,nil)",
-     "else", "updatePositionToInitValuePlusGrowthOutside(v7,v9,v11)",
-     "UpdatePositionIntervalAccumulation(v7,v9,v6,v12)", "end"] := by decide
+     "getSpreadRewardGrowthOutside(v0,v1,v2,v3,v4)", "GetValue(v7)", "SafeSub(v7.GetValue(),v11)", "!(v10)", "if",
+     "IsPositive(v6)", "!(v6.IsPositive())", "if", "return(error)", "end",
+     "NewPositionIntervalAccumulation(v7,v9,v6,v12,nil)", "else",
+     "updatePositionToInitValuePlusGrowthOutside(v7,v9,v11)", "UpdatePositionIntervalAccumulation(v7,v9,v6,v12)",
+     "end"] := by decide
 
 /-- B — `Keeper.getInitialSpreadRewardGrowthOppositeDirectionOfLastTraversalForTick`: `CLFees.initialOut` -/
 theorem opsx_Keeper_getInitialSpreadRewardGrowthOppositeDirectionOfLastTraversalForTick_pinned : Gen.CLKeeperOps.opsx_Keeper_getInitialSpreadRewardGrowthOppositeDirectionOfLastTraversalForTick =
@@ -309,14 +312,15 @@ theorem opsx_Keeper_collectSpreadRewards_pinned : Gen.CLKeeperOps.opsx_Keeper_co
 /-- B — `Keeper.prepareClaimableSpreadRewards`: `CLFees.Acc.prepareClaim` (claim, scale-down unless the factor is one, forfeited dust `QuoDecTruncate` total shares back into the accumulator) -/
 theorem opsx_Keeper_prepareClaimableSpreadRewards_pinned : Gen.CLKeeperOps.opsx_Keeper_prepareClaimableSpreadRewards =
     ["GetPosition(v0,v1,v2)", "GetSpreadRewardAccumulator(v0,v1,v3.PoolId)",
-     "types.KeySpreadRewardPositionAccumulator(v2)", "HasPosition(v5,v6)", "!", "if", "end",
+     "types.KeySpreadRewardPositionAccumulator(v2)", "HasPosition(v5,v6)", "!(v7)", "if", "end",
      "getSpreadRewardGrowthOutside(v0,v1,v3.PoolId,v3.LowerTick,v3.UpperTick)",
      "updateAccumAndClaimRewards(v5,v6,v8)", "getSpreadFactorScalingFactorForPool(v0,v1,v3.PoolId)",
      "sdk.NewCoins()", "=(v12,sdk.NewCoins())", "=(v13,{})", "Equal(v11,oneDec)", "if", "=(v12,v9)", "=(v13,v10)",
-     "else", "range(v9)", "scaleDownSpreadRewardAmount(v14.Amount,v11)", "IsZero(v15)", "!", "if",
-     "sdk.NewCoin(v14.Denom,v15)", "append(v12,_)", "=(v12,_)", "end", "end", "end", "IsZero(v13)", "!", "if",
-     "GetSpreadRewardAccumulator(v0,v1,v3.PoolId)", "GetTotalShares(v5)", "=(v16,v5.GetTotalShares())",
-     "IsZero(v16)", "!", "if", "QuoDecTruncate(v13,v16)", "AddToAccumulator(v5,v17)", "end", "end", "return(v12,nil)"] := by decide
+     "else", "range(v9)", "scaleDownSpreadRewardAmount(v14.Amount,v11)", "IsZero(v15)", "!(v15.IsZero())", "if",
+     "sdk.NewCoin(v14.Denom,v15)", "append(v12,_)", "=(v12,_)", "end", "end", "end", "IsZero(v13)",
+     "!(v13.IsZero())", "if", "GetSpreadRewardAccumulator(v0,v1,v3.PoolId)", "GetTotalShares(v5)",
+     "=(v16,v5.GetTotalShares())", "IsZero(v16)", "!(v16.IsZero())", "if", "QuoDecTruncate(v13,v16)",
+     "AddToAccumulator(v5,v17)", "end", "end", "return(v12,nil)"] := by decide
 
 /-- B — `updatePositionToInitValuePlusGrowthOutside`: the `V2.add r.snap outside` step of `CLFees.Acc.updPos` / `prepareClaim` -/
 theorem opsx_updatePositionToInitValuePlusGrowthOutside_pinned : Gen.CLKeeperOps.opsx_updatePositionToInitValuePlusGrowthOutside =
@@ -346,7 +350,7 @@ theorem opsx_Keeper_crossTick_pinned : Gen.CLKeeperOps.opsx_Keeper_crossTick =
 
 /-- B — `Keeper.GetTickInfo`: `CLFees.tickOut` / `CLInc.tickTr` (stored value, or the initial one for a tick that is not stored) -/
 theorem opsx_Keeper_GetTickInfo_pinned : Gen.CLKeeperOps.opsx_Keeper_GetTickInfo =
-    ["KVStore(v1,v0.storeKey)", "=(v7,{})", "types.KeyTick(v2,v3)", "osmoutils.Get(v6,v8,&v7)", "!", "if",
+    ["KVStore(v1,v0.storeKey)", "=(v7,{})", "types.KeyTick(v2,v3)", "osmoutils.Get(v6,v8,&v7)", "!(v9)", "if",
      "makeInitialTickInfo(v0,v1,v2,v3)", "return(_)", "end", "return(v7,v5)"] := by decide
 
 /-- B — `Keeper.makeInitialTickInfo`: `CLFees.initialOut` / `CLInc.initialTr`, zero gross / net -/
@@ -381,14 +385,14 @@ theorem opsx_Keeper_CreatePosition_pinned : Gen.CLKeeperOps.opsx_Keeper_CreatePo
      "math.TicksToSqrtPrice(v7,v8)", "GetTickSpacing(v10)",
      "roundTickToCanonicalPriceTick(v7,v8,v15,v16,v10.GetTickSpacing())", "=(v7;v8;v11,_)",
      "PoolHasPosition(v0,v1,v10)", "BeforeCreatePosition(v0,v1,v2,v3,v4,v5,v6,v7,v8)",
-     "getNextPositionIdAndIncrement(v0,v1)", "!", "if", "initializeInitialPositionForPool(v0,v1,v10,v13,v14)", "end",
-     "GetCurrentSqrtPrice(v10)", "math.GetLiquidityFromAmounts(v10.GetCurrentSqrtPrice(),v15,v16,v13,v14)",
-     "IsZero(v19)", "if", "IsZero(v13)", "!", "IsZero(v14)", "!", "&&(_,_)", "if", "else", "IsZero(v13)", "if",
-     "end", "end", "UpdatePosition(v0,v1,v2,v3,v7,v8,v19,v9,v18)", "LT(v20.Amount0,v5)", "if", "end",
-     "LT(v20.Amount1,v6)", "if", "end", "GetToken0(v10)", "GetToken1(v10)", "GetAddress(v10)",
+     "getNextPositionIdAndIncrement(v0,v1)", "!(v17)", "if", "initializeInitialPositionForPool(v0,v1,v10,v13,v14)",
+     "end", "GetCurrentSqrtPrice(v10)", "math.GetLiquidityFromAmounts(v10.GetCurrentSqrtPrice(),v15,v16,v13,v14)",
+     "IsZero(v19)", "if", "IsZero(v13)", "!(v13.IsZero())", "IsZero(v14)", "!(v14.IsZero())", "&&(_,_)", "if",
+     "else", "IsZero(v13)", "if", "end", "end", "UpdatePosition(v0,v1,v2,v3,v7,v8,v19,v9,v18)", "LT(v20.Amount0,v5)",
+     "if", "end", "LT(v20.Amount1,v6)", "if", "end", "GetToken0(v10)", "GetToken1(v10)", "GetAddress(v10)",
      "sendCoinsBetweenPoolAndUser(v0,v1,v10.GetToken0(),v10.GetToken1(),v20.Amount0,v20.Amount1,v3,v10.GetAddress())",
      "=(v21,&{eventType:types.TypeEvtCreatePosition,v18:v18,sender:v3,v2:v2,v7:v7,v8:v8,v9:v9,v19:v19,actualAmount0:v20.Amount0,actualAmount1:v20.Amount1})",
-     "emit(v21,v1)", "!", "if", "AfterInitialPoolPositionCreated(v0.listeners,v1,v3,v2)", "end", "=(v22,{})",
+     "emit(v21,v1)", "!(v17)", "if", "AfterInitialPoolPositionCreated(v0.listeners,v1,v3,v2)", "end", "=(v22,{})",
      "IsPositive(v20.Amount0)", "if", "GetToken0(v10)", "sdk.NewCoin(v10.GetToken0(),v20.Amount0)", "Add(v22,_)",
      "=(v22,_)", "end", "IsPositive(v20.Amount1)", "if", "GetToken1(v10)",
      "sdk.NewCoin(v10.GetToken1(),v20.Amount1)", "Add(v22,_)", "=(v22,_)", "end",
@@ -406,7 +410,7 @@ theorem opsx_Keeper_WithdrawPosition_pinned : Gen.CLKeeperOps.opsx_Keeper_Withdr
      "sendCoinsBetweenPoolAndUser(v0,v1,v11.GetToken0(),v11.GetToken1(),v15.Amount0.Abs(),v15.Amount1.Abs(),v11.GetAddress(),v2)",
      "redepositForfeitedIncentives(v0,v1,v8.PoolId,v2,v13,v12)", "Equal(v4,v8.Liquidity)", "if",
      "collectSpreadRewards(v0,v1,v2,v3)", "if", "end", "deletePosition(v0,v1,v3,v2,v8.PoolId)",
-     "HasAnyPositionForPool(v0,v1,v8.PoolId)", "!", "if", "GetId(v11)", "uninitializePool(v0,v1,v11.GetId())",
+     "HasAnyPositionForPool(v0,v1,v8.PoolId)", "!(v16)", "if", "GetId(v11)", "uninitializePool(v0,v1,v11.GetId())",
      "GetId(v11)", "AfterLastPoolPositionRemoved(v0.listeners,v1,v2,v11.GetId())", "end", "end",
      "if(v15.LowerTickIsEmpty)", "RemoveTickInfo(v0,v1,v8.PoolId,v8.LowerTick)", "end", "if(v15.UpperTickIsEmpty)",
      "RemoveTickInfo(v0,v1,v8.PoolId,v8.UpperTick)", "end", "=(v17,{})", "IsPositive(v15.Amount0)", "if",
@@ -424,10 +428,10 @@ theorem opsx_Keeper_addToPosition_pinned : Gen.CLKeeperOps.opsx_Keeper_addToPosi
      "IsZero(v4)", "IsZero(v5)", "&&(v4.IsZero(),v5.IsZero())", "if", "return(0,{},{},error)", "end",
      "positionHasActiveUnderlyingLockAndUpdate(v0,v1,v3)", "if(v10)", "return(0,{},{},error)", "end",
      "WithdrawPosition(v0,v1,v2,v3,v8.Liquidity)", "GetConcentratedPoolById(v0,v1,v8.PoolId)",
-     "PoolHasPosition(v0,v1,v13)", "!", "if", "return(0,{},{},error)", "end", "Add(v11,v4)", "Add(v12,v5)",
+     "PoolHasPosition(v0,v1,v13)", "!(v14)", "if", "return(0,{},{},error)", "end", "Add(v11,v4)", "Add(v12,v5)",
      "GetToken0(v13)", "sdk.NewCoin(v13.GetToken0(),v15)", "GetToken1(v13)", "sdk.NewCoin(v13.GetToken1(),v16)",
-     "sdk.NewCoins(_,_)", "=(v18,v11)", "=(v19,v12)", "IsZero(v6)", "!", "if", "Add(v11,v6)", "=(v18,_)", "end",
-     "IsZero(v7)", "!", "if", "Add(v12,v7)", "=(v19,_)", "end",
+     "sdk.NewCoins(_,_)", "=(v18,v11)", "=(v19,v12)", "IsZero(v6)", "!(v6.IsZero())", "if", "Add(v11,v6)",
+     "=(v18,_)", "end", "IsZero(v7)", "!(v7.IsZero())", "if", "Add(v12,v7)", "=(v19,_)", "end",
      "CreatePosition(v0,v1,v8.PoolId,v2,v17,v18,v19,v8.LowerTick,v8.UpperTick)",
      "return(v20.ID,v20.Amount0,v20.Amount1,nil)"] := by decide
 
@@ -447,8 +451,8 @@ theorem opsx_Keeper_sendCoinsBetweenPoolAndUser_pinned : Gen.CLKeeperOps.opsx_Ke
 
 /-- B — `Keeper.initializeInitialPositionForPool`: the first-position branch of `CLPool.createPositionMin` (price = amount1 / amount0, `MonotonicSqrt`, `SqrtPriceToTickRoundDownSpacing`) -/
 theorem opsx_Keeper_initializeInitialPositionForPool_pinned : Gen.CLKeeperOps.opsx_Keeper_initializeInitialPositionForPool =
-    ["osmomath.ZeroInt()", "GT(v3,osmomath.ZeroInt())", "!", "osmomath.ZeroInt()", "GT(v4,osmomath.ZeroInt())", "!",
-     "||(_,_)", "if", "return(error)", "end", "ToLegacyDec(v4)", "ToLegacyDec(v3)",
+    ["osmomath.ZeroInt()", "GT(v3,osmomath.ZeroInt())", "!(_)", "osmomath.ZeroInt()", "GT(v4,osmomath.ZeroInt())",
+     "!(_)", "||(_,_)", "if", "return(error)", "end", "ToLegacyDec(v4)", "ToLegacyDec(v3)",
      "Quo(v4.ToLegacyDec(),v3.ToLegacyDec())", "osmomath.MonotonicSqrtMut(v5)", "osmomath.BigDecFromDecMut(v6)",
      "GetTickSpacing(v2)", "math.SqrtPriceToTickRoundDownSpacing(v8,v2.GetTickSpacing())",
      "SetCurrentSqrtPrice(v2,v8)", "SetCurrentTick(v2,v9)", "setPool(v0,v1,v2)"] := by decide
@@ -468,19 +472,19 @@ theorem opsx_Keeper_initOrUpdatePosition_pinned : Gen.CLKeeperOps.opsx_Keeper_in
 /-- B — `Keeper.transferPositions`: `CLPool.transferPosition` -/
 theorem opsx_Keeper_transferPositions_pinned : Gen.CLKeeperOps.opsx_Keeper_transferPositions =
     ["GasMeter(v1)", "len(v2)", "*(types.BaseGasFeeForTransferPosition,_)",
-     "ConsumeGas(v1.GasMeter(),_,\"cl transfer position fee\")", "osmoassert.Uint64ArrayValuesAreUnique(v2)", "!",
+     "ConsumeGas(v1.GasMeter(),_,\"cl transfer position fee\")", "osmoassert.Uint64ArrayValuesAreUnique(v2)", "!(_)",
      "if", "return(error)", "end", "GetModuleAccount(v0.accountKeeper,v1,govtypes.ModuleName)", "GetAddress(_)",
-     "Equals(v3,_.GetAddress())", "range(v2)", "GetPosition(v0,v1,v6)", "!", "String(v3)",
+     "Equals(v3,_.GetAddress())", "range(v2)", "GetPosition(v0,v1,v6)", "!(v5)", "String(v3)",
      "!=(v7.Address,v3.String())", "&&(_,_)", "if", "return(error)", "end",
      "positionHasActiveUnderlyingLockAndUpdate(v0,v1,v6)", "if(v9)", "return(error)", "end",
      "sdk.MustAccAddressFromBech32(v7.Address)", "deletePosition(v0,v1,v6,v11,v7.PoolId)",
-     "HasAnyPositionForPool(v0,v1,v7.PoolId)", "!", "if", "return(error)", "end",
+     "HasAnyPositionForPool(v0,v1,v7.PoolId)", "!(v12)", "if", "return(error)", "end",
      "SetPosition(v0,v1,v7.PoolId,v4,v7.LowerTick,v7.UpperTick,v7.JoinTime,v7.Liquidity,v7.PositionId,0)", "end"] := by decide
 
 /-- B — `Keeper.updateFullRangeLiquidityInPool`: not part of the pool model (superfluid's full-range liquidity counter, C11); pinned -/
 theorem opsx_Keeper_updateFullRangeLiquidityInPool_pinned : Gen.CLKeeperOps.opsx_Keeper_updateFullRangeLiquidityInPool =
     ["KVStore(v1,v0.storeKey)", "types.KeyFullRangeLiquidityPrefix(v2)", "=(v6,{})", "osmoutils.Get(v4,v5,&v6)",
-     "=(v9,v6.Dec)", "!", "if", "osmomath.ZeroDec()", "=(v9,osmomath.ZeroDec())", "end", "Add(v9,v3)",
+     "=(v9,v6.Dec)", "!(v7)", "if", "osmomath.ZeroDec()", "=(v9,osmomath.ZeroDec())", "end", "Add(v9,v3)",
      "osmoutils.MustSetDec(v4,v5,v10)"] := by decide
 
 end OsmoVerif.Props.TieGenCLOps
